@@ -177,12 +177,12 @@ type World struct {
 
 	mu    sync.Mutex
 	sigs  map[refspec.Signature][]sigEntry
-	memo  map[string]*blsu.Signature // (key index, root) -> signature
+	memoAgg map[string]refspec.Signature // (signer list, root) -> serialized aggregate
 	aggPK map[string]refspec.Pubkey
 }
 
 func NewWorld(p *Preset, seed int64, nKeys int) *World {
-	w := &World{P: p, Spec: p.Spec(), sigs: map[refspec.Signature][]sigEntry{}, memo: map[string]*blsu.Signature{}, aggPK: map[string]refspec.Pubkey{}}
+	w := &World{P: p, Spec: p.Spec(), sigs: map[refspec.Signature][]sigEntry{}, memoAgg: map[string]refspec.Signature{}, aggPK: map[string]refspec.Pubkey{}}
 	w.C = CfgOf(w.Spec)
 	w.Eng = &Engine{spec: w.Spec}
 	w.Spec.ExecutionEngine = w.Eng
@@ -270,24 +270,23 @@ func (w *World) KeyIndex(pk refspec.Pubkey) int {
 }
 
 // Sign: real BLS signatures by the given keys over root, aggregated; registered in the table.
+// Memoised on (signer list, root) as serialized bytes: blsu objects are never shared between
+// goroutines (serialisation normalises points in place).
 func (w *World) Sign(keys []int, root refspec.Root) refspec.Signature {
 	if len(keys) == 0 {
 		panic("sign: no signers")
 	}
+	mk := fmt.Sprintf("%v/%x", keys, root)
+	w.mu.Lock()
+	if s, ok := w.memoAgg[mk]; ok {
+		w.mu.Unlock()
+		return s
+	}
+	w.mu.Unlock()
 	var sigs []*blsu.Signature
 	var pks []refspec.Pubkey
 	for _, k := range keys {
-		mk := fmt.Sprintf("%d/%x", k, root)
-		w.mu.Lock()
-		s, ok := w.memo[mk]
-		w.mu.Unlock()
-		if !ok {
-			s = blsu.Sign(w.Keys[k].SK, root[:])
-			w.mu.Lock()
-			w.memo[mk] = s
-			w.mu.Unlock()
-		}
-		sigs = append(sigs, s)
+		sigs = append(sigs, blsu.Sign(w.Keys[k].SK, root[:]))
 		pks = append(pks, w.Keys[k].PK)
 	}
 	agg := sigs[0]
@@ -300,6 +299,7 @@ func (w *World) Sign(keys []int, root refspec.Root) refspec.Signature {
 	}
 	out := refspec.Signature(agg.Serialize())
 	w.mu.Lock()
+	w.memoAgg[mk] = out
 	w.sigs[out] = append(w.sigs[out], sigEntry{pkKey(pks), root})
 	w.mu.Unlock()
 	return out
@@ -317,6 +317,7 @@ type EngineCall struct {
 // Engine implements the bellatrix, capella and deneb engine interfaces; records every call and
 // answers from Script (by call number; default valid).
 type Engine struct {
+	Record bool // keep the call log (off for the big explorations)
 	mu     sync.Mutex
 	Calls  []EngineCall
 	Script func(call int, method string) (valid bool, err error)
@@ -326,7 +327,9 @@ type Engine struct {
 func (e *Engine) answer(c EngineCall) (bool, error) {
 	e.mu.Lock()
 	n := len(e.Calls)
-	e.Calls = append(e.Calls, c)
+	if e.Record {
+		e.Calls = append(e.Calls, c)
+	}
 	sc := e.Script
 	e.mu.Unlock()
 	if sc != nil {
